@@ -597,6 +597,13 @@ class ExperimentPackage(StorageStructurePathResolver):
                     sourceFolder, method = sourceFolder.rsplit(':', 1)
                     target_folder_path = os.path.join(targetPath, targetFolder)
 
+                    # VV: the manifest may only create entries beneath the new instance directory
+                    instance_root = os.path.realpath(targetPath)
+                    if os.path.commonpath([instance_root, os.path.realpath(target_folder_path)]) != instance_root:
+                        raise experiment.model.errors.PackageCreateError(
+                            ValueError("Manifest entry %s (%s) points outside of the instance directory" % (
+                                targetFolder, sourceFolder)), targetPath, path)
+
                     if method == 'copy':
                         logger.info("Copying %s to %s" % (sourceFolder, targetFolder))
                         shutil.copytree(sourceFolder, target_folder_path)
